@@ -153,3 +153,7 @@ RULE = ("leg A: TLC explores FieldAction_MC (every kind x width x init x storage
 
 def main(tier):
     return hwcheck.check("C12", tier, Adapter(), RULE)
+
+
+def replay(path):
+    return hwcheck.replay(path, [Adapter()])
